@@ -129,6 +129,35 @@ def operator_clause(model, rep, funcs):
                 det = f"`{det}`: a reflected non-commutative operator must evaluate `other {_sym(opcls)} self` (e.g. 10 - p gives p - 10)"
             rep.ob("S8", f.anchor, f"reflected {dname}: constant {_sym(opcls)} pipeline evaluates other {_sym(opcls)} self(...)", ok, det, node=f.node, fn=f,
                    clause="1 operators")
+    # the comparison helpers the lambdas call: a numpy comparison ufunc of (a, b) in this order.  Comparison ufuncs only have loops with a boolean (or object)
+    # result: `dtype=np.float32` selects no loop and raises "No loop matching the specified signature" for every pair of images.
+    UF = {ast.Lt: "less", ast.LtE: "less_equal", ast.Gt: "greater", ast.GtE: "greater_equal"}
+    for hname, opcls in HELPERS.items():
+        try:
+            h = model.func(PC.replace("::", "::") + hname) if False else model.func("acryo/pipe/_classes.py::" + hname)
+        except Exception:
+            continue  # helper inlined into the lambdas: `_normalise` sees the comparison itself
+        rep.instance("S8.helper", h.loc())
+        rets = [r for r in walk_no_nested(h.node) if isinstance(r, ast.Return) and r.value is not None]
+        ok, det = False, "no return"
+        if len(rets) == 1:
+            v = Matcher(h).expr(rets[0].value)
+            core = v
+            while isinstance(core, ast.Call) and isinstance(core.func, ast.Attribute) and core.func.attr in ("astype", "view") and not isinstance(core.func.value, ast.Name):
+                core = core.func.value
+            pa = h.param_names()
+            det = norm_src(v)
+            if isinstance(core, ast.Compare) and len(core.ops) == 1:
+                ok = isinstance(core.ops[0], opcls) and [norm_src(core.left), norm_src(core.comparators[0])] == pa[:2]
+            elif isinstance(core, ast.Call) and (dotted(core.func) or "").split(".")[-1] == UF[opcls] and len(core.args) >= 2:
+                ok = [norm_src(core.args[0]), norm_src(core.args[1])] == pa[:2]
+                dt = [k for k in core.keywords if k.arg in ("dtype", "signature", "sig")]
+                if ok and dt and norm_src(dt[0].value) not in ("bool", "np.bool_", "numpy.bool_", "object", "'?'", "None"):
+                    ok = False
+                    det = (f"`{norm_src(core)}`: numpy comparison ufuncs have no loop with a {norm_src(dt[0].value)} result - the call raises TypeError (no loop matching the "
+                           "specified signature) for every pair of images, so `pipeline < pipeline` can never be evaluated")
+        rep.ob("S8", h.anchor, f"helper {hname}(a, b) evaluates a {_sym(opcls)} b voxel-wise (a comparison ufunc with a boolean loop, result cast afterwards if at all)", ok,
+               "" if ok else det, node=h.node, fn=h, clause="1 operators", stmt=f"def {hname}")
     rep.floor("S8", 22, "(2 classes x 10 binary dunders + negations)")
     rep.floor("S8.reflected", 4, "(reflected dunders)")
 
@@ -237,6 +266,20 @@ class PipeUnits(UnitsDomain):
         if arg.arg in ("img", "image", "imgs", "atoms_px"):
             return TOP
         return super().seed_param(interp, fn, arg)
+
+    def compare(self, interp, node, vals):
+        # a threshold test decides in pixels: an nm quantity compared with a bare non-zero number makes the outcome depend on the physical value alone,
+        # not on value / scale (sign tests against 0 are unit-free)
+        consts = [c for c in [node.left] + list(node.comparators) if isinstance(c, ast.Constant) and isinstance(c.value, (int, float)) and not isinstance(c.value, bool)
+                  and c.value != 0]
+        if consts:
+            for v in vals:
+                u = self._lift(v)
+                if u is not None and not u.poly and not u.all_of and u.alts == frozenset({NM}):
+                    self.events.append(("clash", interp.cur_fn, node, f"`{norm_src(node)}` compares a length in nm with the bare number {consts[0].value}: the cut-off is "
+                                        "meant in pixels (value / scale); as written the result depends on the physical value alone, not on value / scale"))
+                    break
+        return super().compare(interp, node, vals)
 
 
 PIXEL_CALLEES = ("scipy.ndimage", "scipy.ndimage.", "acryo._typed_scipy")
@@ -432,6 +475,17 @@ def rescale_clause(model, rep, funcs):
         rep.ob("SLOT", f.anchor, "the no-resampling shortcut is taken only when |scale ratio - 1| < tol (two-sided)", bool(ok),
                "" if ok else f"`if {norm_src(tests[0].test)}`: one-sided test - every request for a coarser (or finer) scale returns the image unresampled, the physical box size "
                "changes", node=tests[0], fn=f, clause="4 units", stmt=f"def {name} tolerance")
+        # the zoom factor is original_scale / scale - the very ratio the shortcut tests (the header scale only stands in when no original_scale is given)
+        zooms = [c for c in calls_in(f) if (dotted(c.func) or "").split(".")[-1] == "zoom" and len(c.args) >= 2]
+        for z in zooms:
+            rep.instance("SLOT.rescale", f.loc(z))
+            zr = norm_src(M.expr(z.args[1]))
+            okz = zr in ("original_scale / scale",)
+            same = any(norm_src(M.expr(b["r"][1])) == zr for t in tests for _, b in (M.find("abs($$r - 1) < tol", within=t.test) + M.find("abs(1 - $$r) < tol", within=t.test)))
+            rep.ob("SLOT", f.anchor, "the image is resampled by original_scale / scale, the same ratio that the no-resampling shortcut tests", bool(okz and same),
+                   "" if okz and same else f"zoom factor `{zr}`" + ("" if same else " differs from the ratio tested against tol") +
+                   ("" if okz else ": an explicitly given original_scale is ignored (or the ratio is inverted), the image comes back at the wrong scale"),
+                   node=z, fn=f, clause="4 units", stmt=f"def {name} zoom factor")
     rep.floor("SLOT.rescale", 1, "(from_array)")
 
 
